@@ -57,6 +57,10 @@ def run(model: Model, rep: Report) -> None:
     g13 = guard_conjuncts(t1, uses[0])
     want13 = {"'Encoding'notinspec", "'FontFile'indescriptor"}
     r13.check(g13 == want13, site(t1, uses[0]), t1.qualname, "header parser runs under: 'Encoding' not in spec and 'FontFile' in descriptor", why=f"conditions are {sorted(g13)}: with a further condition the built-in encoding is skipped for some fonts and their uncovered codes fall back to StandardEncoding")
+    r14 = rep.rule("C06-R14", "ALIAS", "width lookup is read-only: PDFFont.char_width stores nothing into self.widths (for the standard 14 fonts that dictionary is the process-wide metrics table, shared by every font of the same name)", 1)
+    cw = model.func(F + "PDFFont.char_width")
+    wr = [n for n in walk_no_nested(cw.node) if (isinstance(n, ast.Subscript) and isinstance(n.ctx, (ast.Store, ast.Del)) and unparse(n.value) == "self.widths") or (isinstance(n, ast.Call) and isinstance(n.func, ast.Attribute) and unparse(n.func.value) == "self.widths" and n.func.attr in ("update", "setdefault", "pop", "clear", "popitem", "__setitem__"))]
+    r14.check(not wr, site(cw, wr[0]) if wr else site(cw), cw.qualname, "char_width reads self.widths only", why=f"`{unparse(wr[0]) if wr else ''}`: a width found under the character of one font's encoding is memoised under the code in a table that other fonts (other encodings, other documents) read")
     # ---------------------------------------------------------------- R7 (shared with C07-R4)
     from .c07 import tounicode_ranges_rule
 
